@@ -51,6 +51,25 @@ def kinds_yielded(fn):
     return out
 
 
+def _blocks(fn):
+    """All statement lists (blocks) of a function, recursively."""
+    out = []
+
+    def visit(stmts):
+        out.append(stmts)
+        for s in stmts:
+            for fld in ("body", "orelse", "finalbody"):
+                sub = getattr(s, fld, None)
+                if isinstance(sub, list) and sub and isinstance(sub[0], ast.stmt) and not isinstance(s, (ast.FunctionDef, ast.ClassDef)):
+                    visit(sub)
+            if isinstance(s, ast.Try):
+                for h in s.handlers:
+                    visit(h.body)
+
+    visit(fn.body)
+    return out
+
+
 def run(ctx):
     repo = ctx.repo
     # ---- R1 -----------------------------------------------------------------
@@ -133,6 +152,23 @@ def run(ctx):
     upd = [c for c in calls_in(f2) if call_attr(c) == "update" and src and call_recv(c) == src[0] and "get_missing_compression_parent_keys" in norm(c)]
     rets = [norm(r.value) for r in walk_own(f2) if isinstance(r, ast.Return)]
     ctx.check("R3-missing-keys-computed", w2, len(src) == 1 and bool(upd) and rets and all(r == src[0] for r in rets), "missing keys = missing parent inventories ∪ missing compression parents, and that set is what is returned", construct=f"{src} {rets}", message="insert_stream_without_locking no longer reports both missing parent inventories and missing compression parents")
+    # ---- R4: (basis, delta) handed to the delta serialiser are chosen together -------------
+    f4 = repo.func(VF, "StreamSource._stream_invs_as_deltas")
+    w4 = f"{VF}:StreamSource._stream_invs_as_deltas"
+    ser = [c for c in calls_in(f4) if call_attr(c) == "delta_to_lines"]
+    ctx.require(len(ser) == 1 and len(ser[0].args) == 3, f"{w4}: delta_to_lines(basis, new, delta) call not found")
+    bname, dname = norm(ser[0].args[0]), norm(ser[0].args[2])
+    blocks = _blocks(f4)
+    bad = []
+    n_pairs = 0
+    for blk in blocks:
+        sets_b = [s for s in blk if isinstance(s, ast.Assign) and any(norm(t) == bname for t in s.targets)]
+        sets_d = [s for s in blk if isinstance(s, ast.Assign) and any(norm(t) == dname for t in s.targets) and norm(s.value) != "None"]
+        if sets_b or sets_d:
+            n_pairs += 1
+            if bool(sets_b) != bool(sets_d):
+                bad.append("; ".join(norm(s)[:50] for s in sets_b + sets_d))
+    ctx.check("R4-basis-delta-paired", w4, n_pairs >= 2 and not bad, f"every block that chooses `{dname}` also sets `{bname}` (and vice versa): the delta sent is the delta against the basis it names", construct=" | ".join(bad), message=f"`{bname}` and `{dname}` are assigned in different blocks ({' | '.join(bad)}): a record can carry the delta against one parent while naming another parent as its basis")
     vfs = set()
     for n in walk_own(f2):
         if isinstance(n, ast.For) and isinstance(n.iter, ast.Tuple):
